@@ -15,7 +15,8 @@ MULASSIGN_TYPES = G.POLYS + G.LOGS + G.INTLOGS
 class P(Prop):
     ID = "C15"
     MODULE = "C15"
-    THEOREMS = ["C15_segment_shapes", "C15_mul_assign", "C15_map_length", "C15_map_nth", "C15_neg_ends", "C15_example"]
+    THEOREMS = ["C15_segment_shapes", "C15_mul_assign", "C15_map_length", "C15_map_nth", "C15_neg_ends", "C15_example",
+                "C15_select_commutes", "C15_value_commutes", "C15_value_scale", "C15_value_neg", "C15_value_translate"]
     KERNELS = SEG_KERNELS + [t + "::neg" for t in NEG_TYPES]
     RULE = ("83 Segment<T> operator kernels checked lane by lane in Coq for all inputs (end lane = the input itself); "
             "Piecewise *, *=, neg, translate run bit-exactly against the model (map over segments) on 1..12 pieces over every "
